@@ -220,7 +220,7 @@ def parse_const(t):
     if t.startswith('"'):
         return ('const', ('str', _unescape(t[1:-1])), '&str')
     if t.startswith('b"'):
-        return ('const', ('bytes', _unescape(t[2:-1])), '&[u8]')
+        return ('const', ('bytes', _unescape_bytes(t[2:-1])), '&[u8]')
     if t.startswith("'") and t.endswith("'"):
         return ('const', ('char', _unescape(t[1:-1])), 'char')
     if t.startswith('{') and t.endswith('}'):
@@ -233,6 +233,14 @@ def parse_const(t):
     if m:
         return ('const', ('zst', m.group(1)), m.group(1))
     return ('const', ('named', t), None)
+
+
+def _unescape_bytes(s):
+    """byte string literal -> python str with one char per byte (latin-1)"""
+    try:
+        return bytes(s, 'utf-8').decode('unicode_escape')
+    except Exception:
+        return s
 
 
 def _unescape(s):
